@@ -29,6 +29,7 @@ type Ctx struct {
 	pures          map[string]*PureFunc
 	ghosts         map[string]*GhostFunc
 	ghostVars      map[string]*GhostVar
+	globalFacts    map[string][]Clause // package path -> assumed global facts
 	opaque         map[string]bool
 	closures       map[string]*closureInfo
 	ranges         map[*ssa.Range]*rangeState
@@ -165,7 +166,7 @@ func Load(repo string, patterns []string) (*Ctx, error) {
 		return nil, err
 	}
 	ctx := &Ctx{repo: repo, byPath: map[string]*packages.Package{}, spkg: map[string]*ssa.Package{}, contracts: map[string]*FuncContract{},
-		ifaceContracts: map[string]*FuncContract{}, pures: map[string]*PureFunc{}, ghosts: map[string]*GhostFunc{}, ghostVars: map[string]*GhostVar{}, opaque: map[string]bool{}, closures: map[string]*closureInfo{},
+		ifaceContracts: map[string]*FuncContract{}, pures: map[string]*PureFunc{}, ghosts: map[string]*GhostFunc{}, ghostVars: map[string]*GhostVar{}, globalFacts: map[string][]Clause{}, opaque: map[string]bool{}, closures: map[string]*closureInfo{},
 		ranges: map[*ssa.Range]*rangeState{}, globals: map[*types.Var]int{}}
 	for _, p := range pkgs {
 		for _, e := range p.Errors {
@@ -214,6 +215,7 @@ func Load(repo string, patterns []string) (*Ctx, error) {
 		for _, o := range cf.Opaque {
 			ctx.opaque[o] = true
 		}
+		ctx.globalFacts[cf.PkgPath] = append(ctx.globalFacts[cf.PkgPath], cf.Globals...)
 		for _, gv := range cf.GhostVars {
 			ctx.ghostVars[cf.PkgPath+"::"+gv.Name] = gv
 		}
@@ -302,6 +304,9 @@ func Load(repo string, patterns []string) (*Ctx, error) {
 		for i := 0; i < sig.Params().Len(); i++ {
 			p := sig.Params().At(i)
 			if p.Name() == "" || p.Name() == "_" {
+				continue
+			}
+			if _, isTP := types.Unalias(p.Type()).(*types.TypeParam); isTP {
 				continue
 			}
 			n := "arg_" + fc.LogName + "_" + p.Name()
